@@ -176,9 +176,16 @@ impl Monitor for C07 {
         }
         if vs.fluct != 0 {
             let (lo, up) = self.band.bounds(vi, pre.height, vs.fluct, vs.decimals);
-            if vs.spot + 2 > up || vs.spot < lo + 2 {
+            // a margin of two raw units at the limits, unless nothing was rounded anywhere (reference price, both limits
+            // and the spot price are exact quotients): then "not outside the band" is unambiguous, limits included
+            let exact = self.band.band_is_exact(vi, pre.height, vs.fluct, vs.decimals) && vs.b != 0 && Big::u(vs.q).mul(Big::u(vs.decimals)).sub(Big::u(vs.spot).mul(Big::u(vs.b))).is_zero();
+            let m = if exact { 0 } else { 2 };
+            if vs.spot + m > up || vs.spot < lo + m {
                 r.count("skip:already-outside-band");
                 return;
+            }
+            if exact && (vs.spot == up || vs.spot == lo) {
+                r.count("antecedents-met-with-spot-exactly-on-the-band-limit");
             }
         }
         let ins_bal = pre.bal(w.insurance.as_str());
